@@ -75,10 +75,11 @@ func clip(s string) string {
 	return s
 }
 
+// snapRoots renders memory the run must not write: by value INCLUDING the hidden capacity of arrays
 func snapRoots(roots []any) string {
 	var b strings.Builder
 	for _, r := range roots {
-		b.WriteString(c56.Snap(r))
+		b.WriteString(c56.SnapCap(r))
 		b.WriteByte('|')
 	}
 	return b.String()
@@ -162,6 +163,20 @@ func history(c *Ctx, j c56.Job, mode int) (viol string, digest string, skipped s
 	}
 	if v = recheck("run 1 finished", r1); v != "" {
 		return v, "", ""
+	}
+	// reference program (defining reduction written in jq): same outputs on the same input
+	if j.Ref != "" {
+		cr, err := c56.Compile(j.Ref, []string{"$v"})
+		if err != nil {
+			return "the reference program does not compile: " + err.Error(), "", ""
+		}
+		rr, str, _ := collect(cr, dec(j.Input), []any{dec(varText)}, nil)
+		if str == "timeout" {
+			return "", "", "timeout"
+		}
+		if v = same("program vs its defining reduction "+j.Ref, snapsOf(rr), snapsOf(r1)); v != "" {
+			return v, "", ""
+		}
 	}
 	if v = untouched("after run 1"); v != "" {
 		return v, "", ""
